@@ -9,6 +9,7 @@ package simrt
 
 import (
 	"fmt"
+	"syscall"
 	"hash/fnv"
 	"runtime/debug"
 	"sort"
@@ -70,6 +71,9 @@ type Sched struct {
 	Mask      []bool // site id -> yield enabled
 	Sites     []SiteInfo
 	StepLimit int64
+	WallLimitMs int64
+	realStart int64
+	wallTick  int64
 
 	Steps     int64
 	Switches  int64
@@ -99,7 +103,7 @@ type SiteInfo struct {
 var S *Sched
 
 func New(strategy Strategy, dec *Stream, maporder *Stream) *Sched {
-	return &Sched{strategy: strategy, dec: dec, maporder: maporder, StepLimit: 12_000_000, pairs: map[uint64]struct{}{}}
+	return &Sched{strategy: strategy, dec: dec, maporder: maporder, StepLimit: 12_000_000, WallLimitMs: 40_000, pairs: map[uint64]struct{}{}}
 }
 
 func (s *Sched) removeParked(t *Task) {
@@ -190,6 +194,30 @@ func trimStack(b []byte) string {
 		}
 	}
 	return strings.Join(keep, " | ")
+}
+
+// realNow is the real wall clock (the time package is faked inside the bubble).
+func realNow() int64 {
+	var tv syscall.Timeval
+	syscall.Gettimeofday(&tv)
+	return int64(tv.Sec)*1000 + int64(tv.Usec)/1000
+}
+
+// wallExceeded implements the real-time watchdog of a run (a livelocked world must not hold a
+// check up for minutes). It ends the run as "budget hit" (inconclusive), never as a verdict.
+func (s *Sched) wallExceeded() bool {
+	if s.WallLimitMs <= 0 {
+		return false
+	}
+	s.wallTick++
+	if s.wallTick&1023 != 0 {
+		return false
+	}
+	if s.realStart == 0 {
+		s.realStart = realNow()
+		return false
+	}
+	return realNow()-s.realStart > s.WallLimitMs
 }
 
 func (s *Sched) NowMs() int64 { return time.Since(s.epoch).Milliseconds() }
@@ -345,7 +373,7 @@ func yieldSlow(s *Sched, t *Task, site int) {
 		s.mu.Unlock()
 		panic(stopSignal{})
 	}
-	if s.Steps > s.StepLimit {
+	if s.Steps > s.StepLimit || s.wallExceeded() {
 		s.BudgetHit = true
 		s.stopping = true
 		s.mu.Unlock()
@@ -405,6 +433,12 @@ func Block(site int) *Task {
 		panic(stopSignal{})
 	}
 	s.checkClock("block")
+	if s.wallExceeded() {
+		s.BudgetHit = true
+		s.stopping = true
+		s.mu.Unlock()
+		panic(stopSignal{})
+	}
 	if t.atomic > 0 {
 		t.broken = true
 	}
